@@ -151,8 +151,8 @@ Section path.
     - destruct Hst as [[-> (z & Hz)] | (k & v0 & -> & -> & Hwi)].
       + destruct (wt_arr_inv _ _ Hs) as (te & l & -> & Hte). simpl. rewrite Hz.
         destruct (int_ovf z); [exact I|].
-        destruct ((z <? 0) || (Z.of_nat (length l) <=? z)); [exact I|].
-        destruct (subtype (dyn nv) te) eqn:Es; [|exact I]. split; [|reflexivity].
+        destruct (subtype (dyn nv) te) eqn:Es; [|exact I]. simpl.
+        destruct ((z <? 0) || (Z.of_nat (length l) <=? z)); [exact I|]. split; [|reflexivity].
         rewrite wfv_arr in *. apply forallb_set_nth; [exact Hw|].
         unfold elem_ok. rewrite (wt_wfv D _ _ Hnv), Es. reflexivity.
       + destruct (wt_dict_inv _ _ _ Hs) as (tk & tv & l & -> & Hk & Hv). simpl.
